@@ -195,6 +195,112 @@ theorem C03_mac_input_is_target_btsd (ctx : AadCtx) (m : Msg) (d : Bytes) :
     verifyBibTarget P store crcFn ctx m = verifyBibTarget P store crcFn ctx m.detach := by
   cases m <;> exact ⟨rfl, rfl⟩
 
+/-- **Duplicate parameter ids, or duplicate result ids for one target, fail closed** (`check_secblk`). -/
+theorem C03_duplicate_ids_fail (b : Bundle) (sb : SecBlock)
+    (h : hasDup sb.paramIds = true ∨ sb.results.any (fun r => hasDup (r.map (·.1))) = true) :
+    verifyBib P store crcFn b sb = .failed 15 := by
+  have hc : checkSecblk sb = .failed 15 := by
+    unfold checkSecblk
+    rcases h with h | h <;> simp [h]
+  simp [verifyBib, hc]
+
+/-- **More (or fewer) than one result for a target fails closed**, wherever the genuine result stands
+    among them. -/
+theorem C03_result_count_fails (b : Bundle) (sb : SecBlock) (j : Nat) (hj : j < sb.targets.length)
+    (hbad : ∀ id m, sb.results[j]? ≠ some [(id, m)]) :
+    verifyBib P store crcFn b sb ≠ .ok := by
+  intro hok
+  rw [C03_verify_iff] at hok
+  obtain ⟨_, id, m, _, hr, _⟩ := hok.2 j hj
+  exact hbad id m hr
+
+private theorem applyBibResults_spec (b : Bundle) (sb0 : SecBlock) (prot kid : Bytes) (k : Key) :
+    ∀ (ts : List Nat) (rs : List (List (Nat × Msg))), applyBibResults P crcFn b sb0 prot kid k ts = some rs →
+      (∀ r ∈ rs, ∃ m, r = [(17, m)]) ∧
+      ∀ j, (hj : j < ts.length) → ∃ tgt m, findBlock b.blocks ts[j] = some tgt ∧ rs[j]? = some [(17, m)] ∧
+        applyMac0 P crcFn (ctxFor b.primary b.blocks sb0 tgt) prot kid k = some m
+  | [], rs, h => by
+    simp only [applyBibResults, Option.some.injEq] at h
+    subst h
+    exact ⟨by simp, fun j hj => absurd hj (by simp)⟩
+  | t :: ts, rs, h => by
+    unfold applyBibResults at h
+    cases hf : findBlock b.blocks t with
+    | none => simp [hf] at h
+    | some tgt =>
+      simp only [hf] at h
+      cases ha : applyMac0 P crcFn (ctxFor b.primary b.blocks sb0 tgt) prot kid k with
+      | none => simp [ha] at h
+      | some m =>
+        cases hr : applyBibResults P crcFn b sb0 prot kid k ts with
+        | none => simp [ha, hr] at h
+        | some rest =>
+          simp only [ha, hr, Option.some.injEq] at h
+          subst h
+          obtain ⟨ih1, ih2⟩ := applyBibResults_spec b sb0 prot kid k ts rest hr
+          refine ⟨?_, ?_⟩
+          · intro r hrm
+            simp only [List.mem_cons] at hrm
+            rcases hrm with e | e
+            · exact ⟨m, e⟩
+            · exact ih1 r e
+          · intro j hj
+            cases j with
+            | zero => exact ⟨tgt, m, by simpa using hf, by simp, ha⟩
+            | succ j =>
+              obtain ⟨tgt', m', h1, h2, h3⟩ := ih2 j (by simpa using hj)
+              exact ⟨tgt', m', by simpa using h1, by simpa using h2, h3⟩
+
+/-- **Results are aligned with targets in any policy order.** Whatever the order in which the policy
+    produced the operations (ascending block numbers or not, e.g. an extension-block association
+    listed before the payload association), the BIB `apply_bib` builds – target list and results in
+    that same order – verifies on the unmodified bundle at a receiver holding the key. -/
+theorem C03_apply_block_verifies (b : Bundle) (blk : Canonical) (ssrc : Eid) (scope : List (Int × Nat))
+    (prot kid : Bytes) (k : Key) (targets : List Nat) (sb : SecBlock)
+    (ha : applyBib P crcFn b blk ssrc scope prot kid k targets = some sb) (hk : store kid = some k) :
+    verifyBib P store crcFn b sb = .ok := by
+  unfold applyBib at ha
+  cases hr : applyBibResults P crcFn b ⟨blk, ssrc, targets, [5], scope, [], []⟩ prot kid k targets with
+  | none => simp [hr] at ha
+  | some rs =>
+    simp only [hr, Option.some.injEq] at ha
+    subst ha
+    obtain ⟨h1, h2⟩ := applyBibResults_spec P crcFn b _ prot kid k targets rs hr
+    rw [C03_verify_iff]
+    refine ⟨?_, ?_⟩
+    · have : rs.any (fun r => hasDup (r.map (·.1))) = false := by
+        rw [List.any_eq_false]
+        intro r hrm
+        obtain ⟨m, e⟩ := h1 r hrm
+        subst e
+        simp [hasDup]
+      simp [checkSecblk, hasDup, this]
+    · intro j hj
+      obtain ⟨tgt, m, hf, hres, hap⟩ := h2 j hj
+      refine ⟨tgt, 17, m, hf, hres, ?_⟩
+      unfold applyMac0 at hap
+      cases hi : macInput crcFn (ctxFor b.primary b.blocks ⟨blk, ssrc, targets, [5], scope, [], []⟩ tgt) "MAC0" prot with
+      | none => simp [hi] at hap
+      | some inp =>
+        simp only [hi, Option.some.injEq] at hap
+        subst hap
+        simp only [Msg.attach, TagOk]
+        exact ⟨inp, k, hi, by simp [lookupKey, hk], rfl⟩
+
+/-- **AAD scope flags, per block.** For a scope entry naming a canonical block (`k ≠ 0`): flags 1
+    contribute the block's type, number and flags; flags 2 its BTSD; flags 3 *both* (metadata first,
+    then the BTSD byte string); flags 0 nothing. -/
+theorem C03_scope_flags (ctx : AadCtx) (k : Int) (hk : k ≠ 0) (c : Canonical) (d : Bytes)
+    (hb : scopeBlock ctx k = some c) (hd : c.btsd = some d) :
+    scopeItem crcFn ctx k 0 = some (.canon none none) ∧
+    scopeItem crcFn ctx k 1 = some (.canon (some (c.typeCode, c.blockNum, c.flags)) none) ∧
+    scopeItem crcFn ctx k 2 = some (.canon none (some d)) ∧
+    scopeItem crcFn ctx k 3 = some (.canon (some (c.typeCode, c.blockNum, c.flags)) (some d)) ∧
+    (Item.canon (some (c.typeCode, c.blockNum, c.flags)) (some d)).enc =
+      encUint c.typeCode ++ encUint c.blockNum ++ encUint c.flags ++ encBstr d := by
+  refine ⟨?_, ?_, ?_, ?_, ?_⟩ <;>
+    simp [scopeItem, hk, hb, hd, hasFlag, flagMetadata, flagBtsd, Item.enc, encMeta, encData]
+
 /-- **Frame.** The MAC input is a function of the covered view, the protected header and the target
     data: contexts that agree on these (whatever else differs in the bundles) give the same input, so
     a change outside the declared scope cannot make verification fail. -/
@@ -418,6 +524,15 @@ example : (certStore (fun r => if r = [1] then some ⟨true, some true, (7 : Nat
 /-- a result list stripped from a two-target BIB: `verifyBib` raises -/
 example : verifyBib C03ex.toyP C03ex.toyStore C03ex.toyCrc ⟨C03ex.prim, [C03ex.payload, { typeCode := 7, blockNum := 3 }, C03ex.bibBlk]⟩
     { C03ex.secBlock [9, 9, 58] false with targets := [1, 3] } = .raised := by
+  decide +kernel
+
+/-- policy order [3, 1] (extension block first): the block built verifies; so does [1, 3] -/
+example : ∀ ts ∈ [[3, 1], [1, 3]],
+    (match applyBib C03ex.toyP C03ex.toyCrc ⟨C03ex.prim, [C03ex.payload, { typeCode := 7, blockNum := 3, btsd := some [0] }]⟩
+        C03ex.bibBlk (.dtn [0x2f, 0x2f, 0x6e]) [(0, 1), (-1, 1)] [0xa1, 1, 5] [1] [9, 9] ts with
+     | none => false
+     | some sb => sb.targets == ts && decide (verifyBib C03ex.toyP C03ex.toyStore C03ex.toyCrc
+        ⟨C03ex.prim, [C03ex.payload, { typeCode := 7, blockNum := 3, btsd := some [0] }]⟩ sb = .ok)) = true := by
   decide +kernel
 
 /-- the side conditions of `C03_aad_injective` / `C03_input_injective` hold for the instance -/
